@@ -69,6 +69,9 @@ def run(ck):
     # ---- O2
     fi = S.m["findNextIndexForDate"]
     next_index(ck, S, "C09-O2")
+    # max + 1 is fresh only while the highest index of a day is still on disk: retention must take its victims from the old end
+    from rules.c06 import retention_victim_is_oldest
+    retention_victim_is_oldest(ck, S, "C09-O2")
     tpl_next = name_pattern(ck, S, fi, "C09-O2", date_is_class=False)
     name_scheme(ck, S, "C09-O3")
     # ---- O4
